@@ -166,6 +166,10 @@ func (s *Stream) reset() {
 	s.handshakeBuffer = s.handshakeBuffer[:cap(s.handshakeBuffer)]
 	s.state = StateHandshake
 	s.stream = nil
+	if s.conn != nil {
+		// Connecting again must close the previous connection, not just forget it.
+		_ = s.conn.Close()
+	}
 	s.conn = nil
 	s.src.Reset()
 	s.dst.Reset()
